@@ -38,7 +38,7 @@ class C12:
             "of alternatives); every block starts with Add(views, Label(item, tag)); branch conditions are conjunctions of 1-2 "
             "attribute equalities; data = 4-16 items (all 4-bit vectors or a random sample, random order); compared: the operator tree "
             "the implementation holds after the build (left/right from the conditions root) with the builder model and with the "
-            "intended tree, and the (item, conclusion) rows of three consecutive evaluations, caching off and on, with the model's "
+            "intended tree, and the (item, conclusion) rows of three consecutive evaluations - in 40 % of the cases AFTER an evaluation that was abandoned after 1-12 results -, caching off and on, with the model's "
             "(as sequences) and with the ripple-down-rule interpreter's (as multisets); non-trivial = at least two different "
             "conclusions are produced and some item matches no branch or a refinement overrides a conclusion")
     explanation = ("C12_rdr (the tree the builder model assembles evaluates to the ripple-down-rule conclusion, for every program) and "
@@ -72,6 +72,9 @@ class C12:
             body = prog['body']
             cand = [0] + [j for j in range(1, len(body)) if all(k == 'alt' for k, _ in body[j:])]
             case['splits'] = sorted(set(rng.sample(cand, min(len(cand), rng.choice([1, 1, 2])))))
+        if rng.random() < 0.4:
+            # the first evaluation is abandoned after 1-12 results (the three complete evaluations that are compared come after it)
+            case['abandon'] = rng.randint(1, 12)
         return case
 
     def to_coq(self, n, case):
@@ -112,6 +115,8 @@ class C12:
         d = collections.Counter()
         p = case['prog']
         d['depth_%d' % depth(p)] += 1
+        if case.get('abandon'):
+            d['after_an_abandoned_evaluation'] += 1
         if case.get('splits') is not None:
             d['grown_after_evaluation'] += 1
             d['grown_in_%d_blocks' % (len(case['splits']) + 1)] += 1
@@ -156,6 +161,10 @@ class C12:
         if case.get('splits') is not None:
             d = copy.deepcopy(case)
             d['splits'] = None
+            yield d
+        if case.get('abandon'):
+            d = copy.deepcopy(case)
+            d['abandon'] = case['abandon'] - 1
             yield d
         for j in range(len(case['dom'])):
             if len(case['dom']) > 1:
